@@ -172,6 +172,11 @@ func setMapEntry(m reflect.Value, key, value interface{}) {
 func setMapEntryPart(dest, v reflect.Value) {
 	if dest.Kind() == reflect.Interface {
 		if v.IsValid() {
+			// the ref table keeps maps behind a pointer: a back-reference to a map
+			// is the map itself, as the first occurrence was
+			if v.Kind() == reflect.Ptr && !v.IsNil() && v.Elem().Kind() == reflect.Map {
+				v = v.Elem()
+			}
 			dest.Set(v)
 		}
 		return
